@@ -33,6 +33,13 @@ def is_option(ty):
     return ty.startswith("std::option::Option<")
 
 
+def find_from_value(fx, wrap, ver_enum):
+    """The versioned parser of a wrapper enum, by role: the inherent function of `wrap` taking (serde_json::Value, <version enum>)."""
+    c = [f for f in fx.doc["fns"] if f["path"].startswith(wrap + "::") and f["kind"] == "AssocFn" and not f.get("impl_trait") and not f.get("exp")
+         and [f["locals"][i]["ty"] for i in range(1, f["arg_count"] + 1)] == ["serde_json::Value", ver_enum]]
+    return c[0] if len(c) == 1 else None
+
+
 def run(ctx):
     fx = ctx.fx
     S = Schema(fx)
@@ -89,7 +96,7 @@ def run(ctx):
         okd = bool(d) and any((x.get("fn") or "").endswith("::try_from_value") for x in d["delegates"])
         ctx.inst("C19/D4", "%s deserialises by version detection" % w.split("::")[-1], okd, "delegates: %s" % (d["delegates"] if d else None))
     # ---- D3
-    fv = fx.fn_opt("models::statement::StatementWrapper::from_value")
+    fv = find_from_value(fx, "models::statement::StatementWrapper", "models::statement::StatementVer")
     if fv is None:
         ctx.bad("C19/D3", "from_value", "StatementWrapper::from_value not found")
     else:
@@ -200,7 +207,7 @@ def run(ctx):
             ev = {l.data[2].get("variant") for l in eb.trace({"l": 0, "p": []}) if l.kind == "agg"}
             ctx.inst("C19/D6", "%s: version() and into_enum() name %s" % (adt_path.split("::")[-1], vname), vv == {vname} and ev == {vname},
                      "version() returns %s, into_enum() wraps as %s" % (sorted(vv), sorted(ev)), vf[0]["at"])
-        fvn = fx.fn_opt(wrap + "::from_value")
+        fvn = find_from_value(fx, wrap, ver_enum)
         if fvn:
             fb = ctx.region(None, policy="private", key=fvn["key"], ps=True)
             arms = {}
